@@ -37,6 +37,9 @@ checks={
  "C20":dict(text=LVL+"one iterator goroutine against one mutator goroutine on Queue (Producer and Iterator) and Deque (forward/reverse x blocking/non-blocking producers) under the symbolic scheduler: every interleaving at lock-release granularity of <=3 mutations with each step of the iterator; strong clauses (order, exactly once, nothing skipped, not parked with an unseen item, EOF after Close, nothing removed) without removals, weak clauses (no panic, only values that were in the container, returns on Close/cancel) with removals; item values symbolic",
             note="initial contents <=2 items, mutator <=3 (queue) / <=2 (deque; 3 thorough) operations, preemption bound 2 / 1 (3 / 2 thorough); unlimited containers only; 'returns' = at quiescence under weak fairness; trusted: sync/cond/context models",
             ref="§5 C20", tech="SSA symbolic execution with symbolic scheduler (bounded, sleep sets) + SMT for item values"),
+ "C13":dict(text=LVL+"for each type documented as safe (Queue, Deque, their Distributors and iterators, WaitGroup, Collector incl. the use of the returned error/iterator, adt.Map/Atomic/Synchronized/Once/Pool, synchronized dt.Set, Lock/Once/Limit wrappers) every unordered pair (thorough: triples) of public methods runs concurrently on one shared instance under the symbolic scheduler, and a happens-before (vector-clock, FastTrack-style) monitor over every interpreted memory access reports any conflicting pair of accesses not ordered by the synchronisation performed - whether or not the two accesses were adjacent in the explored schedule",
+            note="weakest fit to the family (stated in DESIGN C13): the solver decides path feasibility only, the verdict per path is the monitor's; preemption bound 2; pubsub.Broker pairs are not included (see C08/C09 not-applicable reasons); trusted: the release/acquire edges of the sync/atomic/channel/context/sync.Map/sync.Pool models",
+            ref="§5 C13", tech="SSA symbolic execution with symbolic scheduler + vector-clock happens-before monitor on every path"),
 }
 NA={}
 m={"version":1,
